@@ -13,9 +13,25 @@ QUICK_ANCHORS = ['AdcRegisterA1', 'AdcRegisterT1', 'AdcRegisterT2', 'AddRegister
 
 def units(tier, seed=0):
     if tier == 'quick':
-        return famcheck.family_units({'dp'}, [6, 7], TABLES)
-    return famcheck.family_units({'dp'}, [4, 5, 6, 7], TABLES) + \
-        famcheck.family_units({'dp'}, [6], TABLES, sec=False, tag='/nosec')
+        us = famcheck.family_units({'dp'}, [6, 7], TABLES)
+    else:
+        us = famcheck.family_units({'dp'}, [4, 5, 6, 7], TABLES) + \
+            famcheck.family_units({'dp'}, [6], TABLES, sec=False, tag='/nosec')
+    # history independence where decode / operand evaluation reads the state: the same concrete instruction is first run
+    # from a state with unrelated flags and IT state, the snapshot is re-installed, and the step must still equal the
+    # pseudocode ("from any valid machine state" includes states reached after any history)
+    from spec.isa import ISA
+    PRE = [('MovImmediateA1', {'cond': 14, 'S': 1, '_sb0': 0, 'Rd': 2, 'imm12': 1}),
+           ('TeqImmediateA1', {'cond': 14, 'Rn': 3, '_sb0': 0, 'imm12': 0xFF}),
+           ('AndImmediateA1', {'cond': 14, 'S': 1, 'Rn': 1, 'Rd': 2, 'imm12': 0x0F}),
+           ('AndImmediateT1', {'i': 0, 'S': 1, 'Rn': 1, 'imm3': 0, 'Rd': 2, 'imm8': 0x55}),
+           ('AddImmediateThumbT2', {'Rdn': 1, 'imm8': 1}), ('MovImmediateT1', {'Rd': 0, 'imm8': 0}),
+           ('LslImmediateT1', {'imm5': 3, 'Rm': 1, 'Rd': 2})]
+    for r, fx in PRE:
+        if r in ISA:
+            us += famcheck.family_units({'dp'}, [7], TABLES, only=[r], tag='/prehistory-same-iset',
+                                        prehistory='same-iset', fix=dict(fx))
+    return us
 
 
 META = {
@@ -26,7 +42,8 @@ META = {
                    'per explored path the solver must show post-state == oracle step for every snapshot component '
                    '(all registers of all banks, CPSR, SPSRs, every system register, memory array).',
     'bounds': ['architecture versions enumerated (quick 6,7; thorough 4,5,6,7 and 6 without security extensions)',
-               'MPU off, CPSR.E = 0, J = 0', 'inputs on which the architecture is UNPREDICTABLE are excluded '
+               'MPU off, CPSR.E = 0, J = 0', 'history independence: 7 concrete instructions whose operands depend on the '
+               'flags / IT state, each first executed from a state with unrelated flags and IT state', 'inputs on which the architecture is UNPREDICTABLE are excluded '
                '(assumed away by the oracle predicate)', 'no bound on operand values, shift amounts (0..255) or '
                'register numbers'],
     'outside': ['UNPREDICTABLE encodings', 'ThumbEE/Jazelle states', 'MPU/MMU enabled (see C14/C15)'],
